@@ -120,6 +120,13 @@ def part_option_model(ck, exe, d, files, lib, truth, M):
                 av = a + ["--", nm]
             else:
                 av = a
+            # every run works on a private copy of its problem file (directory r<i>/ without a dot, so the tokens get_ftype sees are the
+            # same): `esolver -O f f` and `esolver f -O` followed by f make esolver write its solution file OVER f, which must not
+            # change what the other (concurrent) runs read
+            rdir = "r%d" % len(runs)
+            os.makedirs(os.path.dirname(os.path.join(od, rdir, nm)), exist_ok=True)
+            shutil.copyfile(os.path.join(od, nm), os.path.join(od, rdir, nm))
+            av = [(rdir + "/" + x) if x == nm else x for x in av]
             runs.append(dict(nm=nm, k=k, av=av))
     for av in ([], ["-v"], ["."], [".."], [""], [" x.lp"], ["-L", "."], ["-O", "z.sol", "...."]):
         runs.append(dict(nm=None, k=None, av=av))
